@@ -63,7 +63,7 @@ type rowOne struct {
 	Only string
 }
 
-var hostileStrings = []string{"", " ", "a,b", `say "hi"`, "  padded  ", "line\nbreak", "tab\there", "ünïcödé ✓", "\"", ",", "\n", "lone\rcr", "trailing,", "'single'", "0", "true", "#comment", "x\x00y", "\ufeffbom"}
+var hostileStrings = []string{`C:\u0026\data`, `a\u003cb\u003e`, `<b>&amp;</b>`, `back\nslash`, `\\`, `#N/A`, `#comment,with comma`, "", " ", "a,b", `say "hi"`, "  padded  ", "line\nbreak", "tab\there", "ünïcödé ✓", "\"", ",", "\n", "lone\rcr", "trailing,", "'single'", "0", "true", "#comment", "x\x00y", "\ufeffbom"}
 
 var stringAlphabet = []rune("abcXYZ019 ,\"\n;:-_/\\é")
 
